@@ -60,3 +60,211 @@ Example C10_ex_int_huge :                          (* int(1e30) = 1e30 *)
 Proof. vm_compute. reflexivity. Qed.
 Example C10_ex_hyp : go_len [104;101;108;108;111] /\ etrunc (of_bits 5055640609639927018) <> None.
 Proof. split; [unfold go_len; vm_compute; reflexivity | vm_compute; discriminate]. Qed.
+
+(* ======================================================================================
+   Character mode (-c), regex builtins, replacement strings, split, compile sites
+   ====================================================================================== *)
+From Verif Require Import Lib.Regex Model.BuiltinsRegex Proofs.BuiltinsUtf8 Proofs.BuiltinsRegex
+  Proofs.BuiltinsEngine Gen.RegexSites Proofs.BuiltinsSites.
+
+(* ---- character mode: positions and lengths count characters ------------------------- *)
+(* substr(s, m) / substr(s, m, n) in character mode: the runes (= what Go's `for range s`
+   visits: a well-formed UTF-8 sequence or one invalid byte) from max(1, trunc m) on, the next
+   max(0, trunc n) of them.  Every double except NaN, every string incl. invalid UTF-8. *)
+Theorem C10_substr_chars_spec : forall s x tx,
+  go_len s -> etrunc x = Some tx -> substr_chars s x = Ok (concat (spec_drop (runes s) tx)).
+Proof. exact substr_chars_spec. Qed.
+Print Assumptions C10_substr_chars_spec.
+
+Theorem C10_substr_len_chars_spec : forall s x y tx ty,
+  go_len s -> etrunc x = Some tx -> etrunc y = Some ty ->
+  substr_len_chars s x y = Ok (concat (spec_take (spec_drop (runes s) tx) ty)).
+Proof. exact substr_len_chars_spec. Qed.
+Print Assumptions C10_substr_len_chars_spec.
+
+(* chars_mode_safe: on valid UTF-8 the result is valid UTF-8 (no sequence is ever cut), for all
+   doubles including NaN; in particular no panic *)
+Theorem C10_chars_mode_safe : forall s x y, valid_utf8 s = true ->
+  (exists r, substr_chars s x = Ok r /\ valid_utf8 r = true) /\
+  (exists r, substr_len_chars s x y = Ok r /\ valid_utf8 r = true).
+Proof. exact chars_mode_safe. Qed.
+Print Assumptions C10_chars_mode_safe.
+
+(* ascii_modes_agree: all bytes < 128 -> character mode = byte mode, for substr (all doubles),
+   index, length, and match (any engine whose matches lie inside the text) *)
+Theorem C10_ascii_modes_agree : forall s, is_ascii s = true ->
+  (forall x, substr_chars s x = substr_bytes s x) /\
+  (forall x y, substr_len_chars s x y = substr_len_bytes s x y) /\
+  (forall t, builtin_index true s t = builtin_index false s t) /\
+  builtin_length true s = builtin_length false s /\
+  (forall ff, engine_bounds ff -> builtin_match ff true s = builtin_match ff false s).
+Proof. exact ascii_modes_agree. Qed.
+Print Assumptions C10_ascii_modes_agree.
+
+(* ---- match --------------------------------------------------------------------------- *)
+(* match_substr: whatever match the engine reports for s, substr(s, RSTART, RLENGTH) is exactly
+   that match, in byte mode and (when the match lies on character boundaries) in character
+   mode; RSTART = 0, RLENGTH = -1 when there is none *)
+Theorem C10_match_substr : forall ff, engine_bounds ff ->
+  forall chars s a b,
+  go_len s -> ff s 0 = Some (a, b) -> (chars = true -> on_rune_boundaries s a b) ->
+  exists rstart rlength,
+    builtin_match ff chars s = Ok (rstart, rlength) /\
+    (if chars then substr_len_chars else substr_len_bytes) s (FFin rstart 0) (FFin rlength 0)
+      = Ok (sub_str s a b) /\
+    slice s a b = Ok (sub_str s a b).
+Proof. exact match_substr. Qed.
+Print Assumptions C10_match_substr.
+
+Theorem C10_match_none : forall ff chars s, ff s 0 = None -> builtin_match ff chars s = Ok (0, -1).
+Proof. exact match_none. Qed.
+Print Assumptions C10_match_none.
+
+(* the same for the executable leftmost-longest engine Lib/Regex: no hypothesis left *)
+Theorem C10_match_substr_re : forall r chars s a b,
+  go_len s -> find r s = Some (a, b) ->
+  exists rstart rlength,
+    match_re r chars s = Ok (rstart, rlength) /\
+    (if chars then substr_len_chars else substr_len_bytes) s (FFin rstart 0) (FFin rlength 0)
+      = Ok (sub_str s a b) /\
+    slice s a b = Ok (sub_str s a b).
+Proof. exact match_substr_re. Qed.
+Print Assumptions C10_match_substr_re.
+
+(* ---- sub / gsub ---------------------------------------------------------------------- *)
+(* Go's ReplaceAllStringFunc calls its function exactly on the matches FindAllStringIndex
+   reports (the non-overlapping matches, an empty match directly after a match skipped), in
+   order, and copies the text between them *)
+Theorem C10_replace_all_is_find_all : forall ff, engine_bounds ff -> engine_step ff ->
+  forall s f, replace_all ff s f = Ok (weave_st s f (all_matches_gen ff s) 0 0).
+Proof. exact replace_all_weave. Qed.
+Print Assumptions C10_replace_all_is_find_all.
+
+(* gsub_amp_identity: gsub(r, "&", t) leaves t unchanged and returns the number of matches *)
+Theorem C10_gsub_amp_identity : forall ff, engine_bounds ff -> engine_step ff ->
+  forall s, builtin_sub ff true [38] s = Ok (s, zlen (all_matches_gen ff s)).
+Proof. exact gsub_amp_identity. Qed.
+Print Assumptions C10_gsub_amp_identity.
+
+(* gsub replaces every one of those matches by the expanded replacement ... *)
+Theorem C10_gsub_spec : forall ff, engine_bounds ff -> engine_step ff ->
+  forall repl s,
+  builtin_sub ff true repl s =
+  Ok (weave s (expand_repl repl) (all_matches_gen ff s) 0, zlen (all_matches_gen ff s)).
+Proof. exact gsub_spec. Qed.
+Print Assumptions C10_gsub_spec.
+
+(* ... and sub performs exactly the first of gsub's replacements *)
+Theorem C10_sub_is_first_of_gsub : forall ff, engine_bounds ff -> engine_step ff ->
+  forall repl s,
+  builtin_sub ff false repl s =
+  Ok (weave s (expand_repl repl) (firstn 1 (all_matches_gen ff s)) 0,
+      Z.min 1 (zlen (all_matches_gen ff s))).
+Proof. exact sub_is_first_of_gsub. Qed.
+Print Assumptions C10_sub_is_first_of_gsub.
+
+(* the matches are ordered, non-overlapping and inside the text *)
+Theorem C10_matches_sorted : forall ff, engine_bounds ff ->
+  forall s, sorted_in 0 (zlen s) (all_matches_gen ff s).
+Proof. exact all_matches_gen_sorted. Qed.
+Print Assumptions C10_matches_sorted.
+
+(* amp_expansion: & is the match, \& a literal ampersand, \\ a backslash, all else itself *)
+Theorem C10_amp_expansion : forall m r,
+  expand_repl (38 :: r) m = m ++ expand_repl r m /\
+  expand_repl (92 :: 38 :: r) m = 38 :: expand_repl r m /\
+  expand_repl (92 :: 92 :: r) m = 92 :: expand_repl r m /\
+  (forall c, c <> 38 -> c <> 92 -> expand_repl (c :: r) m = c :: expand_repl r m) /\
+  (forall c, c <> 38 -> c <> 92 -> expand_repl (92 :: c :: r) m = 92 :: c :: expand_repl r m) /\
+  expand_repl [92] m = [92] /\
+  expand_repl [] m = [].
+Proof. exact amp_expansion. Qed.
+Print Assumptions C10_amp_expansion.
+
+(* the executable engine meets both hypotheses, and its matches lie on character boundaries;
+   the generic FindAll loop over it is Lib/Regex.all_matches *)
+Theorem C10_engine_hypotheses_hold : forall r,
+  engine_bounds (find_from r) /\ engine_step (find_from r) /\
+  (forall s a b, find r s = Some (a, b) -> on_rune_boundaries s a b) /\
+  (forall s, all_matches_gen (find_from r) s = all_matches r s).
+Proof. exact engine_hypotheses_hold. Qed.
+Print Assumptions C10_engine_hypotheses_hold.
+
+Theorem C10_gsub_amp_identity_re : forall r s, sub_re r true [38] s = Ok (s, zlen (all_matches r s)).
+Proof. exact gsub_amp_identity_re. Qed.
+Print Assumptions C10_gsub_amp_identity_re.
+
+Theorem C10_sub_is_first_of_gsub_re : forall r repl s,
+  sub_re r false repl s =
+  Ok (weave s (expand_repl repl) (firstn 1 (all_matches r s)) 0, Z.min 1 (zlen (all_matches r s))) /\
+  sub_re r true repl s =
+  Ok (weave s (expand_repl repl) (all_matches r s) 0, zlen (all_matches r s)).
+Proof. exact sub_gsub_re. Qed.
+Print Assumptions C10_sub_is_first_of_gsub_re.
+
+(* ---- split --------------------------------------------------------------------------- *)
+(* split_join: separator of at most one character other than " ", s not empty: the pieces
+   joined by the separator give back s; the array has exactly the keys 1..n, n returned *)
+Theorem C10_split_join : forall ff sep s,
+  bytes_eqb sep [32] = false -> s <> [] -> rune_count sep <= 1 ->
+  exists parts,
+    builtin_split ff sep false s = Ok (zlen parts, number_from 1 parts) /\
+    join sep parts = s /\
+    map fst (number_from 1 parts) = zseq 1 (length parts) /\
+    map snd (number_from 1 parts) = parts.
+Proof. exact split_join. Qed.
+Print Assumptions C10_split_join.
+
+(* a single byte separator: n = number of occurrences + 1, no piece contains the separator *)
+Theorem C10_split_single_byte : forall c s,
+  let parts := strings_split s [c] in
+  length parts = S (count_occ Z.eq_dec s c) /\ Forall (fun p => ~ In c p) parts.
+Proof. exact split_single_byte. Qed.
+Print Assumptions C10_split_single_byte.
+
+(* split in the regex regime never slices out of range *)
+Theorem C10_split_regex_no_panic : forall ff, engine_bounds ff -> forall e s, exists l, re_split ff e s = Ok l.
+Proof. exact re_split_no_panic. Qed.
+Print Assumptions C10_split_regex_no_panic.
+
+(* ---- longest_everywhere (table re-extracted from the repository on every check) ------- *)
+Theorem C10_longest_everywhere :
+  (forall s, In s regex_sites -> site_ok s = true) /\
+  (forall s, In s regex_sites -> classify classification s = Some Matching ->
+     rs_longest s = true /\ rs_early_uses s = [] /\ rs_fall_longest s = true) /\
+  classification_used = true /\
+  length regex_sites = 8%nat.
+Proof. exact longest_everywhere_sites. Qed.
+Print Assumptions C10_longest_everywhere.
+
+(* ---- non-vacuity ---------------------------------------------------------------------- *)
+Definition re_a_ab_abc : re := RAlt (RChr 97) (RAlt (RCat (RChr 97) (RChr 98)) (RCat (RChr 97) (RCat (RChr 98) (RChr 99)))).
+Definition s_xabcx : bytes := [120;97;98;99;120].
+Definition s_hello_utf8 : bytes := [104;195;169;108;108;111].      (* "héllo" *)
+
+Example C10_ex_match_longest :                     (* match("xabcx", /a|ab|abc/): RSTART 2, RLENGTH 3 *)
+  find re_a_ab_abc s_xabcx = Some (1, 4) /\ match_re re_a_ab_abc false s_xabcx = Ok (2, 3) /\ go_len s_xabcx.
+Proof. split; [vm_compute; reflexivity|]. split; [vm_compute; reflexivity|unfold go_len; vm_compute; reflexivity]. Qed.
+
+Example C10_ex_match_chars :                       (* match("héllo", /l+/) in character mode: 3, 2 *)
+  match_re (RPlus (RChr 108)) true s_hello_utf8 = Ok (3, 2) /\
+  match_re (RPlus (RChr 108)) false s_hello_utf8 = Ok (4, 2) /\
+  valid_utf8 s_hello_utf8 = true /\ is_ascii s_hello_utf8 = false /\ is_ascii s_xabcx = true.
+Proof. repeat split; vm_compute; reflexivity. Qed.
+
+Example C10_ex_gsub :                              (* gsub(/a|ab|abc/, "[&]", "xabcxab") = 2, "x[abc]x[ab]" *)
+  sub_re re_a_ab_abc true [91;38;93] [120;97;98;99;120;97;98] =
+    Ok ([120;91;97;98;99;93;120;91;97;98;93], 2) /\
+  sub_re re_a_ab_abc false [91;38;93] [120;97;98;99;120;97;98] =
+    Ok ([120;91;97;98;99;93;120;97;98], 1) /\
+  sub_re (RStar (RChr 120)) true [45] [97;120;98] = Ok ([45;97;45;98;45], 3).   (* gsub(/x*/, "-", "axb") = "-a-b-" *)
+Proof. repeat split; vm_compute; reflexivity. Qed.
+
+Example C10_ex_split :                             (* split("a,b,,c", arr, ",") = 4 *)
+  split_re REps [44] false [97;44;98;44;44;99] = Ok (4, [(1,[97]); (2,[98]); (3,[]); (4,[99])]) /\
+  bytes_eqb [44] [32] = false /\ rune_count [44] <= 1.
+Proof. split; [vm_compute; reflexivity|]. split; [reflexivity|vm_compute; discriminate]. Qed.
+
+Example C10_ex_substr_chars :                      (* substr("héllo", 2, 2) in character mode = "él" *)
+  substr_len_chars s_hello_utf8 (of_bits 4611686018427387904) (of_bits 4611686018427387904) = Ok [195;169;108].
+Proof. vm_compute. reflexivity. Qed.
